@@ -255,3 +255,45 @@ func init() {
 		return nil
 	}
 }
+
+// cosmossdk.io/math decimal rounding leaves as fork-free terms (the library code branches on the sign, on a zero
+// remainder, on the comparison with one half and on the parity of the quotient: 4-5 paths per rounding, which
+// multiplies through every Dec operation of a harness).  Same function: banker's rounding of d / 10^18, symmetric in
+// the sign, result stored in d and returned.  Validated against the library by the native replays of the harnesses
+// that use it and by selftest/declib.
+func init() {
+	prec := new(big.Int).Exp(big.NewInt(10), big.NewInt(18), nil)
+	half := new(big.Int).Div(prec, big.NewInt(2))
+	round := func(ex *Exec, d *Term, up func(q, r *Term) *Term) *Term {
+		c := ex.ctx
+		a := ex.absT(d)
+		q := c.DivE(a, c.IntBig(prec))
+		r := c.ModE(a, c.IntBig(prec))
+		res := c.Add(q, c.Ite(up(q, r), c.Int(1), c.Int(0)))
+		if ex.knownNonNeg(d) {
+			return res
+		}
+		return c.Ite(c.Ge(d, c.Int(0)), res, c.Neg(res))
+	}
+	models["cosmossdk.io/math.chopPrecisionAndRound"] = func(ex *Exec, fn *ssa.Function, args []Value) Value {
+		c := ex.ctx
+		d := ex.bigGet(args[0], "chopPrecisionAndRound")
+		if d.isConst {
+			// concrete: exact library semantics on the constant
+			neg := d.cInt.Sign() < 0
+			a := new(big.Int).Abs(d.cInt)
+			q, r := new(big.Int).QuoRem(a, prec, new(big.Int))
+			if cmp := r.Cmp(half); cmp > 0 || (cmp == 0 && q.Bit(0) == 1) {
+				q.Add(q, big.NewInt(1))
+			}
+			if neg {
+				q.Neg(q)
+			}
+			return ex.bigSet(args[0], c.IntBig(q))
+		}
+		res := round(ex, d, func(q, r *Term) *Term {
+			return c.Or(c.Gt(r, c.IntBig(half)), c.And(c.Eq(r, c.IntBig(half)), c.Eq(c.ModE(q, c.Int(2)), c.Int(1))))
+		})
+		return ex.bigSet(args[0], res)
+	}
+}
